@@ -1,6 +1,7 @@
 """C16 — (clause) tojson output contains none of the characters < > & '.
 
-Round trip through serde and JSON validity are value-level and NOT decided.  Decided structurally:
+Round trip of composite values through serde and JSON validity are value-level and NOT decided.  Decided structurally
+(T2 re-entrant serialization scope, T3/T4 scalar payloads cross the bridge unchanged: see the functions below):
  T1 in `filters::tojson` the only value returned on success is `Value::from_safe_string(buf)` where `buf` is a fresh
     String that is written exclusively inside the per-character loop over the serialised JSON: a `match` on the
     character whose listed arms cover '<', '>', '&', '\\'' and push constants free of these characters, and whose
@@ -82,11 +83,171 @@ def check_char_filter(ctx, prog, f, rule, label, forbidden, safe=SAFE):
     return ok_all, len(safe_calls)
 
 
+GUARD = "minijinja::value::InternalSerializationGuard"
+VREPR = "minijinja::value::ValueRepr"
+
+
+def check_serialization_scope(ctx, prog, tag):
+    """T2: values embedded in serialised data come back as the same values only while the thread-local
+    INTERNAL_SERIALIZATION flag is true; conversions nest (a Serialize impl may itself convert), so the scope must be
+    re-entrant: the site that sets the flag captures the previous value into its guard, and the guard's drop clears
+    the flag only as that captured value dictates."""
+    if not prog.has_fn("minijinja::value::serializing_for_value"):
+        ctx.count("configs without serde")
+        return
+    n = 0
+    for f in prog.fns.values():
+        if f.crate != "minijinja":
+            continue
+        for c in f.calls():
+            if c.name not in ("core::cell::Cell::replace", "core::cell::Cell::set") or len(c.args) < 2:
+                continue
+            p0 = op_place(c.args[0])
+            if p0 is None or not f.locals[p0["l"]].get("s", "").endswith("core::cell::Cell<bool>"):
+                continue
+            if (c.args[1].get("c") or {}).get("int") != "1":
+                continue
+            n += 1
+            # the previous value: result of this replace(), or a Cell::get on the same cell that dominates the set
+            prev_calls = [c] if c.name.endswith("::replace") else [
+                k for k in f.calls() if k.name == "core::cell::Cell::get" and cfg.dominates(f, k.bb, c.bb)]
+            captured = False
+            for bb, i, st in f.all_stmts():
+                rv = st.get("rv", {})
+                if rv.get("k") == "agg" and rv.get("adt") == GUARD:
+                    for o in rv["ops"]:
+                        for src in flow.origins(f, o):
+                            if src.kind == "call" and any(src.call is k for k in prev_calls):
+                                captured = True
+                            if src.kind == "un":
+                                for s2 in flow.origins(f, src.rv["op"] if "op" in src.rv and isinstance(src.rv["op"], dict) else src.rv.get("a", {})):
+                                    if s2.kind == "call" and any(s2.call is k for k in prev_calls):
+                                        captured = True
+            ctx.ob("C16.T2.serialization-scope-captures-previous-state", tag + f.path, captured,
+                   "the flag is set to true without its previous value reaching the guard: when conversions nest, the "
+                   "inner guard clears the flag for the rest of the outer conversion and embedded values (safe "
+                   "strings, undefined, objects) stop round-tripping", f.where(c.bb))
+    ctx.floor("C16.T2 sites entering the serialization scope" + tag, n, 1)
+    drops = [f for f in prog.fns.values() if GUARD.split("::")[-1] in f.path and f.path.endswith("core::ops::drop::Drop>::drop")]
+    ctx.floor("C16.T2 guard drop impl" + tag, len(drops), 1)
+    for d in drops:
+        for c in d.calls():
+            if c.name != "core::cell::Cell::set":
+                continue
+            v = (c.args[1].get("c") or {}).get("int")
+            if v is None:
+                src = flow.origins(d, c.args[1])
+                ok = bool(src) and all(o.kind == "arg" and o.proj for o in src)      # writes back a saved field
+            else:
+                ok = False
+                for (sb, taken) in flow.guards(d, c.bb):
+                    cd = flow.cond_of(d, sb)
+                    if cd.kind == "local" and cd.place is not None and any(
+                            isinstance(e, dict) and e.get("of") == GUARD for e in cd.place.get("p", [])):
+                        ok = True
+            ctx.ob("C16.T2.guard-drop-follows-captured-state", tag + d.path, ok,
+                   "the guard clears the flag unconditionally: an inner (nested) conversion ends the outer scope",
+                   d.where(c.bb))
+
+
+def _roots_are_arg(f, op, argno, depth=0):
+    """every root of the operand, looking through casts and wrapper aggregates, is parameter `argno`"""
+    src = flow.origins(f, op)
+    if not src or depth > 4:
+        return False
+    for o in src:
+        if o.kind == "arg":
+            if o.arg != argno:
+                return False
+        elif o.kind == "cast":
+            if not _roots_are_arg(f, o.rv["op"], argno, depth + 1):
+                return False
+        elif o.kind == "agg" and len(o.rv["ops"]) == 1:
+            if not _roots_are_arg(f, o.rv["ops"][0], argno, depth + 1):
+                return False
+        else:
+            return False
+    return True
+
+
+SCALARS = {"Bool": "bool", "U64": "u64", "I64": "i64", "F64": "f64", "U128": "u128", "I128": "i128"}
+
+
+def check_scalar_tables(ctx, prog, tag):
+    """T3/T4: scalar payloads pass through the serde bridge unchanged.  Serializer: serialize_<scalar>(v) builds the
+    variant from `v` through widening casts only.  Deserializer: the deserialize_any arm of each scalar variant hands
+    exactly its payload to the visitor (the visitor method's parameter type is enforced by the compiler), with no
+    cast or arithmetic in between."""
+    ser = {p: f for p, f in prog.fns.items() if "ValueSerializer" in p and "::serialize_" in p and f.crate == "minijinja"}
+    if not ser:
+        return
+    n = 0
+    for p, f in sorted(ser.items()):
+        nm = p.split("::")[-1]
+        if nm[len("serialize_"):] not in ("bool", "i8", "i16", "i32", "i64", "i128", "u8", "u16", "u32", "u64", "u128", "f32", "f64"):
+            continue
+        n += 1
+        bad = []
+        for bb, i, st in f.all_stmts():
+            rv = st.get("rv", {})
+            if rv.get("k") == "cast":
+                frm, to = rv.get("from"), rv.get("to")
+                if rv["kind"] == "IntToInt" and query.lossy_int_cast(frm, to):
+                    bad.append("%s as %s" % (frm, to))
+                elif rv["kind"] == "FloatToFloat" and (frm, to) != ("f32", "f64"):
+                    bad.append("%s as %s" % (frm, to))
+                elif rv["kind"] in ("FloatToInt", "IntToFloat"):
+                    bad.append("%s as %s" % (frm, to))
+            if rv.get("k") == "bin":
+                bad.append("arithmetic %s" % rv["op"])
+        built = [st["rv"].get("variant") for bb, i, st in f.all_stmts() if st.get("rv", {}).get("k") == "agg" and st["rv"].get("adt") == VREPR]
+        from_arg = False
+        for bb, i, st in f.all_stmts():
+            rv = st.get("rv", {})
+            if rv.get("k") == "agg" and rv.get("adt") == VREPR and rv["ops"]:
+                from_arg = _roots_are_arg(f, rv["ops"][0], 2)
+        ctx.ob("C16.T3.scalar-serialised-unchanged", tag + nm, not bad and len(built) == 1 and from_arg,
+               "%s builds %s with %s" % (nm, built, bad or "a payload that is not its argument"), f.loc)
+    ctx.floor("C16.T3 scalar serializer methods" + tag, n, 13)
+    da = [f for p, f in prog.fns.items() if p.endswith("for minijinja::value::Value>::deserialize_any") and "deserialize" in p]
+    if not da:
+        ctx.count("configs without deserialization")
+        return
+    f = da[0]
+    from .. import arms
+    sw = arms.enum_switches(prog, f, VREPR)
+    ctx.need(sw, "C16.T4: deserialize_any has no switch on ValueRepr")
+    regs = arms.arm_regions(prog, f, sw[0][0], VREPR)
+    m = 0
+    for v, ty in SCALARS.items():
+        reg = regs.get(v, set())
+        vis = [c for c in f.calls() if c.bb in reg and "::visit_" in c.name]
+        ok = len(vis) == 1 and vis[0].name.split("::")[-1] == "visit_" + ty
+        if ok:
+            src = flow.origins(f, vis[0].args[1])
+            ok = bool(src) and all(o.kind == "arg" and ("as " + v) in o.proj for o in src)
+        m += 1
+        ctx.ob("C16.T4.scalar-deserialised-unchanged", tag + v, ok,
+               "the %s arm of deserialize_any must hand its own payload to visit_%s (found %s)" % (
+                   v, ty, [c.name.split("::")[-1] for c in vis]), f.where(sw[0][0]))
+    for v, want in (("String", ("visit_str", "visit_string", "visit_borrowed_str")),
+                    ("SmallStr", ("visit_str", "visit_string", "visit_borrowed_str")),
+                    ("Bytes", ("visit_bytes", "visit_byte_buf", "visit_borrowed_bytes"))):
+        reg = regs.get(v, set())
+        vis = [c for c in f.calls() if c.bb in reg and "::visit_" in c.name]
+        m += 1
+        ctx.ob("C16.T4.text-deserialised-as-text", tag + v, len(vis) == 1 and vis[0].name.split("::")[-1] in want,
+               "the %s arm calls %s" % (v, [c.name.split("::")[-1] for c in vis]), f.where(sw[0][0]))
+    ctx.floor("C16.T4 deserialize_any arms" + tag, m, 9)
+
+
 def run(ctx):
     ctx.explain("C16 (tojson HTML-safety clause only): structural filter rule on the closure that post-processes the "
                 "serialised JSON: the only returned safe string is a buffer written char by char, the default arm "
                 "of the character match copies the character and the listed arms cover < > & ' with replacements "
-                "free of them.  Decides, for all values, that tojson output contains none of < > & '.  The serde "
+                "free of them.  Decides, for all values, that tojson output contains none of < > & '.  T2: the "
+                "serialization scope flag is captured and restored re-entrantly.  T3/T4: scalar payloads cross the "
+                "serde bridge through widening casts only and reach the visitor of their own type.  Composite "
                 "round trip and validity of the JSON are value-level and NOT decided by this check.")
     ctx.assume("serde_json produces the string that is filtered; nothing is appended after the filter")
     for cname in ctx.configs():
@@ -124,6 +285,11 @@ def run(ctx):
             ctx.floor("C16.T1 serialize_json call sites" + tag, len(sj), 2)
         ctx.floor("C16.T1 safe-string constructions in tojson" + tag, n, 1)
         # other producers of "safe" JSON in the builtin filters: none may bypass (inventory)
+    for cname in ctx.configs():
+        prog = ctx.program(cname)
+        tag = "" if cname == "MAX" else "[%s]" % cname
+        check_serialization_scope(ctx, prog, tag)
+        check_scalar_tables(ctx, prog, tag)
     # positive control
     cprog = ctx.controls
     sub = type(ctx)(ctx.prop, ctx.tier, ctx.repo)
